@@ -86,12 +86,21 @@ def control_deps(b):
 def defs_of(b, local):
     """All (block, idx|'t', rvalue-or-term) writing bare local `local`."""
     out = []
+    seen = set()
     for bi, blk in enumerate(b.blocks):
+        # copies of one block made by variant threading (rules/inline.py) are one definition site
+        origin = blk["thr"][0] if blk.get("thr") else bi
         for si, s in enumerate(blk["s"]):
             if s["k"] == "assign" and s["p"]["l"] == local and not s["p"]["pr"]:
+                if (origin, si) in seen:
+                    continue
+                seen.add((origin, si))
                 out.append((bi, si, s["r"]))
         t = blk["t"]
         if t["k"] == "call" and t["d"]["l"] == local and not t["d"]["pr"]:
+            if (origin, "t") in seen:
+                continue
+            seen.add((origin, "t"))
             out.append((bi, "t", t))
     return out
 
@@ -423,3 +432,46 @@ def plain_value_origin(fg, bk, operand, fam_owner=None):
                 if names:
                     calls.add(names[0])
     return calls, computed
+
+
+def option_tests(b):
+    """Every switch that tests the presence of an Option / the success of a Result, directly
+    (`match x`, `if let Some(..) = x`, `let .. else`) or through `?` (`Try::branch(x)`):
+    yields (switch block, tested place dict, absent/err target, present/ok target, via_try)."""
+    out = []
+    live = b.live_blocks()
+    for bi, blk in enumerate(b.blocks):
+        t = blk["t"]
+        if t["k"] != "switch" or bi not in live or t["o"]["k"] == "const":
+            continue
+        for s in blk["s"]:
+            if s["k"] == "assign" and s["r"]["k"] == "discr" and s["p"]["l"] == t["o"]["p"]["l"] and not s["p"]["pr"]:
+                p = s["r"]["p"]
+                ty = p.get("ty", "").lstrip("&")
+                tm = {v: tb for v, tb in t["ts"]}
+                if ty.startswith("core::option::Option<"):
+                    none_t = tm.get("0", t["else"])
+                    some_t = tm.get("1", t["else"])
+                    out.append((bi, p, none_t, some_t, False))
+                elif ty.startswith("core::result::Result<"):
+                    err_t = tm.get("1", t["else"])
+                    ok_t = tm.get("0", t["else"])
+                    out.append((bi, p, err_t, ok_t, False))
+                elif ty.startswith("core::ops::control_flow::ControlFlow<") and not p["pr"]:
+                    d = defs_of(b, p["l"])
+                    if len(d) == 1 and d[0][1] == "t":
+                        ct = d[0][2]
+                        names = callee_names(ct)
+                        if any(n.endswith("Try::branch") for n in names) and ct["args"] and ct["args"][0]["k"] != "const":
+                            a = ct["args"][0]["p"]
+                            aty = a.get("ty", "").lstrip("&")
+                            if aty.startswith("core::option::Option<") or aty.startswith("core::result::Result<"):
+                                brk = tm.get("1", t["else"])
+                                cont = tm.get("0", t["else"])
+                                # the argument is usually a temporary moved from the tested value
+                                src = a
+                                dd = defs_of(b, a["l"]) if not a["pr"] else []
+                                if len(dd) == 1 and dd[0][1] != "t" and dd[0][2]["k"] == "use" and dd[0][2]["o"]["k"] != "const":
+                                    src = dd[0][2]["o"]["p"]
+                                out.append((bi, src, brk, cont, True))
+    return out
